@@ -95,6 +95,8 @@ func (r *Runner) checkProperty(spec *PropSpec) int {
 	bySolver := map[string]int{}
 	var samples []interface{}
 	nObl, nOK := 0, 0
+	boundedRun, boundedOK := 0, 0
+	var boundedTexts []string
 	covers, coverOK := 0, 0
 	var failedNames []string
 	for _, o := range res.obls {
@@ -112,7 +114,17 @@ func (r *Runner) checkProperty(spec *PropSpec) int {
 			}
 			continue
 		}
-		nObl++
+		if o.Kind == "bounded" {
+			// a bounded cross-check is reported on its own and never counted among the proved obligations
+			boundedRun++
+			if o.OK() {
+				boundedOK++
+				boundedTexts = append(boundedTexts, o.Text)
+				continue
+			}
+		} else {
+			nObl++
+		}
 		c := byKind[o.Kind]
 		c[0]++
 		if o.OK() {
@@ -260,6 +272,9 @@ func (r *Runner) checkProperty(spec *PropSpec) int {
 	}
 	if cross != nil {
 		ev.Coverage["runtime_cross_checks"] = cross
+	}
+	if boundedRun > 0 {
+		ev.Coverage["bounded_checks"] = map[string]interface{}{"run": boundedRun, "held": boundedOK, "what": boundedTexts, "note": "bounded: not counted among the obligations above"}
 	}
 	os.MkdirAll(filepath.Join(r.verif, "evidence"), 0755)
 	b, _ := json.MarshalIndent(ev, "", " ")
